@@ -12,9 +12,9 @@ import (
 // fails to see an earlier one, or an assignment that disturbs another variable, shows.
 
 type dState struct {
-	a    int
-	b    string
-	c    string // printed form
+	a int
+	b string
+	c string // printed form
 }
 
 type dStmt struct {
